@@ -152,7 +152,7 @@ Proof.
   destruct FUEL_big as [f Hf]. rewrite Hf. unfold op_poll.
   assert (Hna : packet_available (rd w) = false) by (unfold packet_available; rewrite Hrp; reflexivity).
   assert (Hq : PQ w).
-  { unfold PQ, should_queue_pingreq. rewrite Hpt, Hnp. destruct (N.leb_spec d (w_now w)) as [L|_]; [lia|]. reflexivity. }
+  { split; [|apply calm_nil; exact Hs]. unfold should_queue_pingreq. rewrite Hpt, Hnp. destruct (N.leb_spec d (w_now w)) as [L|_]; [lia|]. reflexivity. }
   (* ---- first pass: nothing to do; the wait sleeps until the deadline ---- *)
   rewrite wait_unfold. unfold drive_packet. rewrite Hl. cbn [negb]. rewrite drive_loop_unfold.
   assert (Ep : process_received w = (w, ODone None)) by (unfold process_received; fold (rd w); rewrite Hna; reflexivity).
@@ -181,7 +181,7 @@ Proof.
     split; [reflexivity|]. split; [reflexivity|]. split; [exact I3|]. split; [exact Hm|].
     split; [cbn [s1 s_rt set_ob]; intros d0 E; rewrite Hpt in E; discriminate E|]. split; [exact HB|].
     destruct HF as [_ [Fl Ft]]. split; [|split; assumption]. cbn [s1 s_ob set_ob with_ctl ob_ctl]. repeat constructor. }
-  assert (Q3 : PQ w3) by (unfold PQ; cbn [w3 w_sess w_now upd_sess]; exact (pinged_pq _ _ _ Hp1)).
+  assert (Q3 : PQ w3) by (split; [cbn [w3 w_sess w_now upd_sess]; exact (pinged_pq _ _ _ Hp1)|apply calm_nil; cbn [w3 w_script upd_sess]; exact C1]).
   assert (Na3 : NA w3) by (unfold NA; cbn [w3 w_sess upd_sess s1 s_reader set_ob]; exact Hna).
   assert (En3 : next_step (s_ob (w_sess w3)) = Some (StCtl CPing (SWrite 0))) by (cbn [w3 w_sess upd_sess s1 s_ob set_ob]; apply next_step_pinged; exact Hn).
   rewrite drive_loop_unfold.
@@ -226,7 +226,7 @@ Proof.
   pose proof Hcw as [Hs [Hl [I [Hm [_ [HB HF]]]]]].
   destruct FUEL_big as [f Hf]. rewrite Hf. unfold op_poll.
   assert (Hna : packet_available (rd w) = false) by (unfold packet_available; rewrite Hrp; reflexivity).
-  assert (Hq : PQ w) by (unfold PQ, should_queue_pingreq; rewrite Hpt; reflexivity).
+  assert (Hq : PQ w) by (split; [unfold should_queue_pingreq; rewrite Hpt; reflexivity|apply calm_nil; exact Hs]).
   rewrite wait_unfold. unfold drive_packet. rewrite Hl. cbn [negb]. rewrite drive_loop_unfold.
   assert (Ep : process_received w = (w, ODone None)) by (unfold process_received; fold (rd w); rewrite Hna; reflexivity).
   rewrite Ep. fold (rd w). rewrite Hna.
@@ -298,7 +298,7 @@ Lemma Hc_pinged : forall w s1, Hc w -> maybe_queue_pingreq (w_sess w) (w_now w) 
 Proof.
   intros w s1 Hcw Hq. pose proof Hcw as [Hs [Hl [I [Hm [Hpt [HB HF]]]]]].
   destruct (maybe_queue_frame _ _ _ _ Hq) as [Er Ert].
-  split; [|unfold PQ; cbn [w_sess w_now upd_sess]; exact (pinged_pq _ _ _ Hq)].
+  split; [|split; [cbn [w_sess w_now upd_sess]; exact (pinged_pq _ _ _ Hq)|apply calm_nil; cbn [w_script upd_sess]; exact Hs]].
   unfold Hc. cbn [w_script w_live w_sess w_now upd_sess]. rewrite Ert.
   split; [exact Hs|]. split; [exact Hl|]. split.
   { replace s1 with (fst (maybe_queue_pingreq (w_sess w) (w_now w))) by now rewrite Hq. eapply WInv_step; [apply SS_ping|exact I]. }
@@ -378,7 +378,7 @@ Proof.
   unfold op_poll. rewrite Hf.
   assert (Hto : ping_timed_out (w_sess w) (w_now w) = false).
   { unfold ping_timed_out. rewrite Hpt. apply N.leb_gt. exact Hlt. }
-  assert (Hq : PQ w) by (unfold PQ, should_queue_pingreq; rewrite Hpt; reflexivity).
+  assert (Hq : PQ w) by (split; [unfold should_queue_pingreq; rewrite Hpt; reflexivity|apply calm_nil; exact Hs]).
   destruct (wait_reads_arrived_packet_gen (S (S (S (S f)))) w 208 [0] [] t eq_refl) as [w3 [E3 [D3 [P3 [K3 [S3 [Q3 [C3 [N3 [L3 W3]]]]]]]]]];
     try assumption; try (cbn; unfold BIG; lia).
   change (208 :: [0] ++ []) with [208; 0] in *. change (lenN [208; 0]) with 2 in *.
